@@ -143,6 +143,38 @@ class NFDict(dict):
         return [self[k] for k in dict.keys(self)]
 
 
+def _strip_local_annotations(tree: ast.AST) -> None:
+    """Inside function bodies `x: T = v` is read as `x = v`, and a bare `x: T` as nothing (annotations of locals have no run-time
+    effect).  Class-level and module-level annotated assignments stay (record fields, typed constants are read from them)."""
+    class F(ast.NodeTransformer):
+        def __init__(self):
+            self.depth = 0
+
+        def visit_FunctionDef(self, node):
+            self.depth += 1
+            self.generic_visit(node)
+            self.depth -= 1
+            return node
+        visit_AsyncFunctionDef = visit_FunctionDef
+
+        def visit_ClassDef(self, node):
+            saved, self.depth = self.depth, 0
+            self.generic_visit(node)
+            self.depth = saved
+            return node
+
+        def visit_AnnAssign(self, node):
+            if self.depth == 0:
+                return node
+            if node.value is None:
+                return ast.copy_location(ast.Pass(), node)
+            new = ast.Assign(targets=[node.target], value=node.value)
+            ast.copy_location(new, node)
+            return new
+    F().visit(tree)
+    ast.fix_missing_locations(tree)
+
+
 class Repo:
     def __init__(self, root: Optional[Path] = None):
         self.root = Path(root) if root else repo_root()
@@ -164,6 +196,7 @@ class Repo:
                 tree = ast.parse(text, filename=rel)
             except SyntaxError as e:
                 raise AnchorMissing(f"{rel} does not parse: {e}")
+            _strip_local_annotations(tree)
             modparts = list(p.relative_to(base).with_suffix("").parts)
             if modparts[-1] == "__init__":
                 modparts = modparts[:-1]
